@@ -789,3 +789,56 @@ def random_run(seed: int, rid: str, nsteps: int = 40, fault: float = 0.25, ncall
             w.obs()
     w.honest_tail()
     return w
+
+
+def directed_run(seed: int, rid: str, template: str) -> World:
+    """Schedules for races that random choice rarely produces (the stimuli are still drawn from the seed)."""
+    w = World(seed, rid)
+    rng = w.rng
+
+    def honest_until(pred, limit=60):
+        for _ in range(limit):
+            if pred():
+                return True
+            if not w.honest_step():
+                return False
+        return pred()
+    if template == "shutdown_vs_connect":
+        # close() is in progress (disconnect pending), an operation starts on the link that is about to go, shutdown() is called
+        w.call(1, rng.choice(["get", "put"]), rng.choice([1, 2]))
+        honest_until(lambda: not w.busy(1))
+        w.call(2, "close")                                   # disconnect pending
+        if rng.random() < 0.3:
+            w.obs()
+        w.call(1, rng.choice(["get", "put"]), 1)             # needs a connection: waits for the lock
+        w.call(3, "shutdown" if rng.random() < 0.8 else "close")
+        w.obs()
+        w.honest_tail()
+        w.call(1, "get", 1)                                  # after shutdown: nothing may happen
+        w.honest_tail()
+    elif template == "close_during_request":
+        w.call(1, rng.choice(["get", "put"]), rng.choice([1, 2, 3]), long=rng.random() < 0.5)
+        honest_until(lambda: bool(w.live("wr") or w.live("rd")))
+        for _ in range(rng.randrange(0, 3)):
+            if w.live("wr") or w.live("rd"):
+                w.honest_step()
+        w.call(2, rng.choice(["close", "close", "shutdown"]))
+        w.call(3, "get", 1)
+        if rng.random() < 0.5 and w.live("disc"):
+            w.disc_result(w.live("disc")[0], error=rng.random() < 0.3)
+        w.honest_tail()
+    elif template == "cancel_positions":
+        # cancel the caller at the k-th suspension of its operation
+        k = rng.randrange(0, 9)
+        w.call(1, rng.choice(["get", "put"]), rng.choice([1, 2]), long=rng.random() < 0.5)
+        for _ in range(k):
+            w.honest_step()
+        if w.busy(1) and not w.live("disc"):
+            w.cancel(1)
+        w.call(2, rng.choice(["get", "put"]), 1)
+        w.honest_tail()
+    w.settle()
+    return w
+
+
+TEMPLATES = ("shutdown_vs_connect", "close_during_request", "cancel_positions")
